@@ -8,6 +8,7 @@ from ..nf import Rat, C
 from ..source import Unsupported, AnchorError, norm, walk_no_nested
 from ..xlate import Interp, Obj, ListV, Elem, SumV, Raised, RankOrder, DictV
 from .common import same, show, coeff_vector, sub
+from .rxnfix import get_public
 
 NASA = 'pmutt.empirical.nasa'
 SHO = 'pmutt.empirical.shomate'
@@ -472,7 +473,7 @@ def nasa9_pipeline(run, repo, tables, max_seg):
                                 self_obj=ci, owner=owner, name=owner.qual + '.from_data')
             if not isinstance(o, Obj):
                 raise Unsupported('Nasa9.from_data did not build an object: %s' % show(o))
-            segs = o.attrs.get('_nasas')
+            segs = get_public(I, o, 'nasas')
             if not isinstance(segs, ListV) or len(segs) != nseg:
                 run.fail('DATAFLOW.segments', 'nasa.Nasa9.from_data', 'segments:%d' % nseg,
                          'expected %d segment objects, got %s' % (nseg, show(segs)), owner.module, fn)
@@ -549,7 +550,7 @@ def shomate_pipeline(run, repo, tables):
     run.check(same(o.attrs.get('T_low'), D.sym('MIN{(Tdata)}')) and same(o.attrs.get('T_high'), D.sym('MAX{(Tdata)}')),
               'DATAFLOW.bounds', 'shomate.Shomate.from_data', 'any units',
               'temperature bounds are not the span of the data', owner.module, fn)
-    run.check(same(o.attrs.get('_units'), units), 'DATAFLOW.units', 'shomate.Shomate.from_data', 'any units',
+    run.check(same(get_public(I, o, 'units'), units), 'DATAFLOW.units', 'shomate.Shomate.from_data', 'any units',
               'the species is not built with the fitting units', owner.module, fn)
     return 5
 
